@@ -19,6 +19,7 @@ from vlib.model import Src
 from .c11 import collect_ids, shift_ids
 
 POOL = {
+    "table_then_garbage": "Feature: f\n  Scenario: s\n    Given x\n      | a | b | c |\n      | d | e | f |\n  garbage right behind the rows\n",
     "en_ok": "Feature: f\n  Scenario: s\n    Given x\n",
     "fr_hdr": "#language: fr\nFonctionnalité: f\n  Scénario: s\n    Soit x\n",
     "open_q": "Feature: f\n  Scenario: s\n    Given x\n      \"\"\"\n      abc\n",
@@ -103,6 +104,9 @@ def check_history(case, stats):
     kept = []  # (index, result object as returned, snapshot taken when it was returned)
     kept_exc = []  # (index, exception object as raised, its errors as read when it was raised)
     for i, (text, stop) in enumerate(items):
+        if case.get("swap_builder") and i % 2 == 1:
+            # the used parser gets a brand-new builder (ast_builder is a public attribute)
+            parser.ast_builder = gh.AstBuilder(gh.IdGenerator())
         mixed = case.get("mixed_call_styles") and dflt != "en"
         if mixed:
             # call styles alternate on ONE parser: an explicit matcher of another dialect, then none at all (= a fresh English one)
@@ -185,7 +189,7 @@ def unit_pool(a):
                         if k == 3 and a["sample"] and (n // a["nshards"]) % a["sample"] != a["seed"] % a["sample"]:
                             continue
                         yield {"sub": "history", "default": dflt, "names": list(hist), "items": [[POOL[h], s] for h, s in zip(hist, stops)], "check_dialects": n % 50 == 0,
-                               "own_matcher": not (dflt == "en" and n % 2), "dirty_matcher": n % 3 == 0, "mixed_call_styles": n % 5 == 0, "clones": n % 7 == 3, "scanner_objects": n % 7 == 5}
+                               "own_matcher": not (dflt == "en" and n % 2), "dirty_matcher": n % 3 == 0, "mixed_call_styles": n % 5 == 0, "clones": n % 7 == 3, "scanner_objects": n % 7 == 5, "swap_builder": n % 11 == 4}
     sweep(stats, gen(), check_history)
     return stats
 
@@ -195,7 +199,7 @@ def g_history(s):
     for _ in range(s.rng(2, 5)):
         t = POOL[s.choice(sorted(POOL))] if s.int(3) == 0 else noisy.g_noisy(s)[0]
         items.append([t, s.int(4) == 0])
-    return {"sub": "history", "default": s.choice(["en", "en", "fr", "no"]), "items": items, "check_dialects": True, "own_matcher": bool(s.int(2)), "clones": s.int(5) == 0, "scanner_objects": s.int(5) == 0}
+    return {"sub": "history", "default": s.choice(["en", "en", "fr", "no"]), "items": items, "check_dialects": True, "own_matcher": bool(s.int(2)), "clones": s.int(5) == 0, "scanner_objects": s.int(5) == 0, "swap_builder": s.int(5) == 0}
 
 
 def unit_sampled(a):
